@@ -342,6 +342,10 @@ def base_catalogue():
     # single field / many fields
     c.append(T("S24Single", deny="default", fields=[F("only", "u8")]))
     c.append(T("S25Wide", fields=[F("f%d" % i, "u8") for i in range(9)]))
+    # no field at all: unknown keys are still refused (there is nothing else such a type can say)
+    c.append(T("S29EmptyDeny", deny="default", fields=[]))
+    c.append(T("S30EmptyDenyFn", deny="fn", err="CatErr", fields=[]))
+    c.append(T("S31Empty", fields=[]))
     # container from / try_from
     c.append(T("C01From", from_=("String", False), fields=[F("inner", "String")]))
     c.append(T("C02FromRef", from_=("String", True), validate=True, fields=[F("inner", "String")]))
@@ -368,6 +372,7 @@ def base_catalogue():
         V("One", fields=[F("a", "u8", try_from=("u8", False)), F("b", "u8", missing_fn=True), F("c", "u8", map=True, default="trait")]),
         V("Two", rename="zwei", fields=[F("s", "String", from_=("String", True))]), V("Three")]))
     c.append(T("E15TaggedSingle", tag="only", variants=[V("Solo", fields=[F("z", "Option<u8>")])]))
+    c.append(T("E21TaggedEmptyVariant", tag="t", deny="default", variants=[V("Nothing", fields=[]), V("One", fields=[F("x", "u8")])]))
     # a variant-level rename_all must not leak into later variants
     c.append(T("E16VariantOrder", tag="shape", variants=[
         V("Circle", rename_all="camelCase", fields=[F("center_x", "u8"), F("radius_len", "u8")]),
